@@ -13,6 +13,7 @@
 -/
 import Y0.Lemmas.ScmEnvXLaws
 import Y0.Lemmas.SemCanon
+import Y0.Spec.SingleWorld
 
 namespace Y0
 namespace Scm
@@ -128,26 +129,6 @@ theorem envX_pr_eq_env (hC : XCtx M G) (pop : Option Name) (d : List (Name × Na
 
 /-! ### single-world expressions -/
 
-/-- leaf clause of `swOK`: one world (all variables carry the same subscript list), whose subscripts name pairwise
-distinct variables; every event variable is a node of `G` -/
-def leafSW (G : MG Name) (c p : List Var) : Bool :=
-  (c ++ p).all (fun v => (c ++ p).all (fun w => decide (v.ivs = w.ivs)))
-  && (c ++ p).all (fun v => namesNodup (v.ivs.map (·.name)))
-  && (c ++ p).all (fun v => decide (v.name ∈ G.nodes))
-
-mutual
-/-- single-world expressions over the nodes of `G` (decidable) -/
-def _root_.Y0.Expr.swOK (G : MG Name) : Expr → Bool
-  | .prob _ c p => leafSW G c p
-  | .prod fs => Expr.swOKList G fs
-  | .sum e _ => Expr.swOK G e
-  | .frac n d => Expr.swOK G n && Expr.swOK G d
-  | _ => true
-def _root_.Y0.Expr.swOKList (G : MG Name) : List Expr → Bool
-  | [] => true
-  | e :: es => Expr.swOK G e && Expr.swOKList G es
-end
-
 theorem doValid_of_ivs {σ σ' : Val} (hσ : ∀ x, σ x < M.card x) (hσ' : ∀ x, σ' x < M.card x) (w : List Iv)
     (hw : (w.map (·.name)).Nodup) : DoValid M.card (w.map (Iv.eval σ σ')) := by
   constructor
@@ -254,6 +235,31 @@ theorem denNZList_envX_iff_env (hC : XCtx M G) {σ' : Val} (hσ' : ∀ x, σ' x 
     simp only [Expr.swOKList, Bool.and_eq_true] at h
     simp only [DenNZList]
     rw [denNZ_envX_iff_env hC hσ' e h.1, denNZList_envX_iff_env hC hσ' es h.2]
+end
+
+mutual
+/-- the all-valuations form implies the in-range form used by C10 -/
+theorem denNZ_of_denNZA {env : Env} {σ' : Val} : ∀ (e : Expr), DenNZA env σ' e → DenNZ env σ' e
+  | .prob _ _ _, _ => by simp
+  | .prod fs, h => by
+    simp only [DenNZ]
+    exact denNZList_of_denNZAList fs (by simpa [DenNZA] using h)
+  | .sum e r, h => by
+    rw [denNZ_sum_iff]
+    exact denNZ_of_denNZA e (by simpa [DenNZA] using h)
+  | .frac n d, h => by
+    simp only [DenNZA] at h
+    rw [denNZ_frac_iff]
+    exact ⟨denNZ_of_denNZA n h.1, denNZ_of_denNZA d h.2.1, fun σ _ => h.2.2 σ⟩
+  | .one, _ => by simp
+  | .zero, _ => by simp
+  | .q _ _, _ => by simp
+theorem denNZList_of_denNZAList {env : Env} {σ' : Val} : ∀ (fs : List Expr), DenNZAList env σ' fs → DenNZList env σ' fs
+  | [], _ => by simp [DenNZList]
+  | e :: es, h => by
+    simp only [DenNZAList] at h
+    simp only [DenNZList]
+    exact ⟨denNZ_of_denNZA e h.1, denNZList_of_denNZAList es h.2⟩
 end
 
 end Scm
